@@ -385,6 +385,17 @@ func ruleCorridor(w *World, r *Report) {
 					if ph, isPhi := resolve(part).(*ssa.Phi); isPhi && isAccumulatorPhi(ph) {
 						known = true
 					}
+					// the result of an exported function of the module is what its documentation says
+					// (GetNspatialIdsAroundVoxcels never contains its centre): known not to be the line
+					var pc *ssa.Call
+					if ex, isEx := resolve(part).(*ssa.Extract); isEx {
+						pc, _ = ex.Tuple.(*ssa.Call)
+					} else if cc, isC := resolve(part).(*ssa.Call); isC {
+						pc = cc
+					}
+					if pc != nil && calleeOf(pc) != nil && w.InModule(calleeOf(pc)) && tokenExported(calleeOf(pc).Name()) && calleeOf(pc).Signature.Recv() == nil {
+						known = true
+					}
 					if !known {
 						st = Undecided // an operand the rule cannot see into (helper result): no verdict
 					}
@@ -706,6 +717,9 @@ func latTruncShape(w *World, g *ssa.Function, st *ssa.Store) (Status, string) {
 		how = "math.Trunc(lat*1e10)/1e10 (cut toward zero for both signs)"
 	} else {
 		phi, ok := stored.(*ssa.Phi)
+		if rf := roundForm(stored, p); !ok && rf != "" {
+			return Violated, fmt.Sprintf("the stored latitude is rounded with math.%s for both signs: it must be cut toward zero (Floor for positive, Ceil for negative input, or Trunc)", rf)
+		}
 		if !ok {
 			return Undecided, "the stored latitude is neither math.Trunc(lat*K)/K nor a Floor form / Ceil form selected by the sign of the input (" + describeValue(st.Val) + ")"
 		}
